@@ -91,6 +91,8 @@ def gen_workload(rng, malformed=False, batch=False, dag=False, resolve=False):
                     req[f"{nm}:any"] = rng.choice([1, 1, 1, 2])
                 if "GPU:any" not in req and rng.random() < 0.7:
                     req = {"GPU:any": rng.choice([1, 1, 2])}
+                if rng.random() < 0.04:
+                    req = {f"{rng.choice(RES)}:any": 0}   # a strategy that demands nothing (a barrier / marker task)
                 if rng.random() < 0.12:
                     # a specific instance, possibly next to an `any` request of the same type (overlapping entries)
                     req[f"{rng.choice(RES)}:id{rng.randint(1, 3)}"] = 1
@@ -141,6 +143,9 @@ def gen_world(rng, stream="regular"):
         pol = "RANDOM"
     if dag or resolve:
         pol = rng.choice(["EDF", "FIFO", "LSF"])
+    retime = stream == "retime"   # a re-planning policy: pending placements are moved earlier and later all the time
+    if retime:
+        pol = "RANDOM"
     flags = {
         "loop_timeout": rng.choice([60, 120, 400]) if (periodic or rng.random() < 0.3) else rng.choice([9223372036854775807, 5000]),
         "scheduler_frequency": rng.choice([-1, -1, 0, 1, 7]),
@@ -161,6 +166,10 @@ def gen_world(rng, stream="regular"):
     if pol == "RANDOM":
         policy.update(lookahead=rng.choice([0, 0, 5, 50]), retract=rng.random() < 0.3, cancel_prob=rng.choice([0.0, 0.05, 0.15]))
         flags["release_taskgraphs"] = rng.random() < 0.2
+        if retime:
+            policy.update(lookahead=rng.choice([20, 50]), retract=rng.random() < 0.7, cancel_prob=rng.choice([0.0, 0.05, 0.1]), delays=[0, 2, 5, 9, 20, 40])
+            flags["scheduler_frequency"] = rng.choice([1, 3, 7])
+            flags["release_taskgraphs"] = rng.random() < 0.5
         if batch:
             policy["batch_prob"] = rng.choice([0.5, 0.8, 1.0])
             policy["cancel_prob"] = rng.choice([0.0, 0.0, 0.05])
